@@ -24,13 +24,28 @@ Proof.
   destruct (load_files fs log) as [l [x|]]; simpl in *; auto. destruct fs; simpl; auto.
 Qed.
 
+Lemma load_remote_log b w log : no_writes log = true -> no_writes (fst (load_remote b w log)) = true.
+Proof.
+  intro H. unfold load_remote.
+  assert (no_writes (match w_url w with Introspect.UOk => log ++ [EHttp (s_url b)] | _ => log end) = true) as HL.
+  { destruct (w_url w); auto. rewrite no_writes_app, H. reflexivity. }
+  destruct (Introspect.schema_from_url _ _ _); simpl; exact HL.
+Qed.
+
+(* the remote route never lets a foreign exception through: every refusal is IntrospectionError *)
+Lemma load_remote_typed b w log log' x :
+  load_remote b w log = (log', Some x) -> x_cls x = IntrospectionError.
+Proof.
+  unfold load_remote. destruct (Introspect.schema_from_url _ _ _); intro H; inversion H; reflexivity.
+Qed.
+
 Lemma load_schema_log b w log : no_writes log = true -> no_writes (fst (load_schema b w log)) = true.
 Proof.
   intro H. unfold load_schema. destruct (negb _).
   - pose proof (load_and_parse_log (w_schema_files w) log H) as HL.
     destruct (load_and_parse (w_schema_files w) log) as [l [x|]]; simpl in *; auto.
     destruct (w_schema_build w); simpl; auto.
-  - simpl. rewrite no_writes_app, H. reflexivity.
+  - apply load_remote_log; auto.
 Qed.
 
 Lemma load_queries_log w log : no_writes log = true -> no_writes (fst (load_queries w log)) = true.
@@ -110,7 +125,8 @@ Qed.
 
 (* ---------- the validity phase is the identity: the reference verdict is never consulted ---------- *)
 Definition with_schema_errors (w : world) (errs : list string) : world :=
-  {| w_schema_files := w_schema_files w; w_schema_build := w_schema_build w; w_remote := w_remote w;
+  {| w_schema_files := w_schema_files w; w_schema_build := w_schema_build w; w_url := w_url w;
+     w_resp := w_resp w; w_deep := w_deep w;
      w_schema_errors := errs; w_plugin_err := w_plugin_err w; w_query_files := w_query_files w;
      w_op_errors := w_op_errors w; w_ops := w_ops w; w_fragments := w_fragments w;
      w_query_type := w_query_type w; w_mutation_type := w_mutation_type w |}.
@@ -217,7 +233,7 @@ Proof.
   unfold load_schema, load_and_parse in H.
   destruct (String.eqb (s_schema_path (c_base c)) "") eqn:SP; simpl in H.
   - (* remote schema *)
-    destruct (w_remote w); simpl in H; [discriminate|].
+    destruct (load_remote (c_base c) w []) as [lr [y|]] eqn:LR; simpl in H; [discriminate|].
     split. { intro N. apply String.eqb_eq in SP. contradiction. }
     revert H. unfold load_plugins. destruct (w_plugin_err w); simpl; [discriminate|]. intro H.
     split; [reflexivity|].
@@ -264,7 +280,6 @@ Definition typed_world (w : world) : bool :=
   (match w_schema_build w with BuildOk => true | _ => false end)
   && (match w_schema_files w with [] => false | _ => true end)
   && (match w_query_files w with [] => false | _ => true end)
-  && opt_typed (w_remote w)
   && forallb (fun o => opt_typed (op_err o)) (w_ops w).
 
 Lemma config_exn_codegen x : config_exn x = true -> is_codegen_exn x = true.
@@ -296,7 +311,7 @@ Qed.
 Theorem run_client_typed_error e cfg w ph x : typed_world w = true ->
   snd (run_client e cfg w) = Failed ph x -> is_codegen_exn (x_cls x) = true.
 Proof.
-  unfold typed_world. rewrite !andb_true_iff. intros [[[[HB HSF] HQF] HR] HO].
+  unfold typed_world. rewrite !andb_true_iff. intros [[[HB HSF] HQF] HO].
   unfold run_client.
   destruct (get_client_settings e cfg) as [c|y|] eqn:GS; simpl; try discriminate.
   2:{ intro H. inversion H; subst. apply config_exn_codegen. eapply get_client_settings_err_cls; eauto. }
@@ -307,7 +322,7 @@ Proof.
       + intro H1. inversion H1; subst. eapply load_and_parse_typed; eauto.
         destruct (w_schema_files w); [discriminate | discriminate].
       + destruct (w_schema_build w); [discriminate | discriminate].
-    - intro H1. inversion H1; subst. rewrite H3 in HR. exact HR. }
+    - intro H1. rewrite (load_remote_typed _ _ _ _ _ H1). reflexivity. }
   unfold load_plugins. destruct (w_plugin_err w); simpl.
   { intro H. inversion H; reflexivity. }
   destruct (String.eqb (c_queries_path c) "") eqn:QP; simpl.
@@ -328,7 +343,7 @@ Qed.
 Theorem run_schema_typed_error e cfg w ph x : typed_world w = true ->
   snd (run_schema e cfg w) = Failed ph x -> is_codegen_exn (x_cls x) = true.
 Proof.
-  unfold typed_world. rewrite !andb_true_iff. intros [[[[HB HSF] HQF] HR] HO].
+  unfold typed_world. rewrite !andb_true_iff. intros [[[HB HSF] HQF] HO].
   unfold run_schema.
   destruct (get_graphql_schema_settings e cfg) as [g|y|] eqn:GS; simpl; try discriminate.
   2:{ intro H. inversion H; subst. apply config_exn_codegen. eapply get_schema_settings_err_cls; eauto. }
@@ -339,7 +354,106 @@ Proof.
       + intro H1. inversion H1; subst. eapply load_and_parse_typed; eauto.
         destruct (w_schema_files w); [discriminate | discriminate].
       + destruct (w_schema_build w); [discriminate | discriminate].
-    - intro H1. inversion H1; subst. rewrite H3 in HR. exact HR. }
+    - intro H1. rewrite (load_remote_typed _ _ _ _ _ H1). reflexivity. }
   unfold load_plugins. destruct (w_plugin_err w); simpl; [|discriminate].
   intro H. inversion H; reflexivity.
+Qed.
+
+(* ---------- both schema sources: schema_path is prioritised, nothing is sent to the URL ---------- *)
+Definition is_http (f : effect) : bool := match f with EHttp _ => true | _ => false end.
+Definition no_http (log : list effect) : bool := forallb (fun f => negb (is_http f)) log.
+
+Lemma no_http_app l1 l2 : no_http (l1 ++ l2) = no_http l1 && no_http l2.
+Proof. unfold no_http. apply forallb_app. Qed.
+
+Lemma load_files_no_http fs : forall log, no_http log = true -> no_http (fst (load_files fs log)) = true.
+Proof.
+  induction fs as [|f fs IH]; simpl; intros log H; auto.
+  assert (no_http (log ++ [ERead (gf_path f)]) = true) as H1 by (rewrite no_http_app, H; reflexivity).
+  destruct (gf_ok f); simpl; auto.
+Qed.
+
+Lemma load_and_parse_no_http fs log : no_http log = true -> no_http (fst (load_and_parse fs log)) = true.
+Proof.
+  intro H. unfold load_and_parse. pose proof (load_files_no_http fs log H) as HL.
+  destruct (load_files fs log) as [l [x|]]; simpl in *; auto. destruct fs; simpl; auto.
+Qed.
+
+Lemma load_queries_no_http w log : no_http log = true -> no_http (fst (load_queries w log)) = true.
+Proof.
+  intro H. unfold load_queries. pose proof (load_and_parse_no_http (w_query_files w) log H) as HL.
+  destruct (load_and_parse (w_query_files w) log) as [l [x|]]; simpl in *; auto.
+  destruct (relevant_op_errors w); simpl; auto.
+Qed.
+
+Lemma generate_no_http e c w results log : no_http log = true ->
+  no_http (fst (generate e c w results log)) = true.
+Proof.
+  intro H. unfold generate. destruct (has_dup _); simpl; auto.
+  rewrite no_http_app. apply andb_true_iff. split.
+  - destruct (p_exists _ _); auto. rewrite no_http_app, H. reflexivity.
+  - unfold no_http. rewrite forallb_forall. intros f Hf. apply in_map_iff in Hf as (p & <- & _). reflexivity.
+Qed.
+
+Lemma load_schema_local_no_http b w log : s_schema_path b <> "" -> no_http log = true ->
+  no_http (fst (load_schema b w log)) = true.
+Proof.
+  intros NE H. unfold load_schema.
+  destruct (String.eqb (s_schema_path b) "") eqn:E; [apply String.eqb_eq in E; contradiction|]. simpl.
+  pose proof (load_and_parse_no_http (w_schema_files w) log H) as HL.
+  destruct (load_and_parse (w_schema_files w) log) as [l [x|]]; simpl in *; auto.
+  destruct (w_schema_build w); simpl; auto.
+Qed.
+
+Theorem run_client_schema_path_prioritised e cfg w c :
+  get_client_settings e cfg = Ok c -> s_schema_path (c_base c) <> "" ->
+  no_http (fst (run_client e cfg w)) = true.
+Proof.
+  intros GS NE. unfold run_client. rewrite GS.
+  pose proof (load_schema_local_no_http (c_base c) w [] NE eq_refl) as HS.
+  destruct (load_schema (c_base c) w []) as [log [y|]]; simpl in *; auto.
+  destruct (load_plugins w); simpl; auto.
+  assert (no_http (fst (if String.eqb (c_queries_path c) "" then (log, None) else load_queries w log)) = true) as HQ.
+  { destruct (String.eqb (c_queries_path c) ""); simpl; auto. apply load_queries_no_http; auto. }
+  destruct (if String.eqb (c_queries_path c) "" then (log, None) else load_queries w log) as [log2 [y|]];
+    simpl in *; auto.
+  assert (no_http (log2 ++ [EStdout]) = true) as H3 by (rewrite no_http_app, HQ; reflexivity).
+  destruct (add_operations _ []) as [results| |]; simpl; auto.
+  apply generate_no_http; auto.
+Qed.
+
+Theorem run_schema_schema_path_prioritised e cfg w g :
+  get_graphql_schema_settings e cfg = Ok g -> s_schema_path (g_base g) <> "" ->
+  no_http (fst (run_schema e cfg w)) = true.
+Proof.
+  intros GS NE. unfold run_schema. rewrite GS.
+  pose proof (load_schema_local_no_http (g_base g) w [] NE eq_refl) as HS.
+  destruct (load_schema (g_base g) w []) as [log [y|]]; simpl in *; auto.
+  destruct (load_plugins w); simpl; auto.
+  rewrite !no_http_app, HS. reflexivity.
+Qed.
+
+(* ---------- the remote route: every refusal is IntrospectionError, whatever the server answers ---------- *)
+Theorem run_client_remote_failure_typed e cfg w c x :
+  get_client_settings e cfg = Ok c -> s_schema_path (c_base c) = "" ->
+  snd (run_client e cfg w) = Failed PhSchema x -> x_cls x = IntrospectionError.
+Proof.
+  intros GS E. unfold run_client. rewrite GS. unfold load_schema. rewrite E. simpl.
+  destruct (load_remote (c_base c) w []) as [log [y|]] eqn:LR; simpl.
+  - intro H. inversion H; subst. eapply load_remote_typed; eauto.
+  - destruct (load_plugins w); simpl; [discriminate|].
+    destruct (if String.eqb (c_queries_path c) "" then (log, None) else load_queries w log) as [log2 [y|]];
+      simpl; [discriminate|].
+    destruct (add_operations _ []) as [results| |]; simpl; try discriminate.
+    intro H. unfold generate in H. destruct (has_dup _); simpl in H; discriminate.
+Qed.
+
+Theorem run_schema_remote_failure_typed e cfg w g x :
+  get_graphql_schema_settings e cfg = Ok g -> s_schema_path (g_base g) = "" ->
+  snd (run_schema e cfg w) = Failed PhSchema x -> x_cls x = IntrospectionError.
+Proof.
+  intros GS E. unfold run_schema. rewrite GS. unfold load_schema. rewrite E. simpl.
+  destruct (load_remote (g_base g) w []) as [log [y|]] eqn:LR; simpl.
+  - intro H. inversion H; subst. eapply load_remote_typed; eauto.
+  - destruct (load_plugins w); simpl; discriminate.
 Qed.
